@@ -3,7 +3,7 @@ CONSTANTS
   ReqModesSA = {"none", "byte"}
   ReqVersionsSA <- VersionsQuickSA
   ReqCountsSA <- CountsQuickSA
-  ReqLevelsSA = {"-", "M"}
+  ReqLevelsSA = {"-", "H"}
   ReqEciSA = {FALSE}
   ReqBoostSA = {TRUE}
   AllowDevPadSA = TRUE
